@@ -567,6 +567,10 @@ func c06SerializeIPv6(a [8]uint16) string {
 // The bare domain of a ".x"/"*.x" entry is accepted too (most permissive reading; the repository's tests expect it).
 // IP-literal entries compare by address value.
 
+// c06DNSName: "good.test." is the fully-qualified spelling of "good.test" — the same DNS name, hence the same owner; the
+// property is about who receives the user, so one trailing dot is not a different host here.
+func c06DNSName(h string) string { return strings.TrimSuffix(h, ".") }
+
 func c06CanonHost(h string) string {
 	h = strings.ToLower(h)
 	if strings.Contains(h, ":") && !strings.HasPrefix(h, "[") {
@@ -579,6 +583,7 @@ func c06CanonHost(h string) string {
 }
 
 func c06Whitelisted(u c06URL, entries []string) bool {
+	u.Host = c06DNSName(u.Host)
 	for _, e := range entries {
 		eh, ep := e, ""
 		if k := strings.LastIndexByte(e, ':'); k >= 0 && !strings.HasSuffix(e, "]") && !strings.Contains(e[k:], "]") {
@@ -618,11 +623,12 @@ func c06Whitelisted(u c06URL, entries []string) bool {
 }
 
 // c06Verdict classifies a target a browser would be sent to.
-//   "fail"  navigation failure (not followed)          — allowed
-//   "own"   same host and effective port as the request — allowed
-//   "wl"    permitted by the whitelist                   — allowed
-//   "scheme" a scheme other than http/https (javascript:, data:, file:, ftp: ...) — never a legal redirect target
-//   "off"   any other host/port
+//
+//	"fail"  navigation failure (not followed)          — allowed
+//	"own"   same host and effective port as the request — allowed
+//	"wl"    permitted by the whitelist                   — allowed
+//	"scheme" a scheme other than http/https (javascript:, data:, file:, ftp: ...) — never a legal redirect target
+//	"off"   any other host/port
 func c06Verdict(target string, base c06Base, wl []string) (string, c06URL) {
 	u := c06Resolve(target, base)
 	switch u.Kind {
@@ -634,7 +640,7 @@ func c06Verdict(target string, base c06Base, wl []string) (string, c06URL) {
 	if u.Scheme != "http" && u.Scheme != "https" {
 		return "scheme", u
 	}
-	if u.Host == base.Host && u.Port == base.Port {
+	if c06DNSName(u.Host) == c06DNSName(base.Host) && u.Port == base.Port {
 		return "own", u
 	}
 	if c06Whitelisted(u, wl) {
